@@ -67,15 +67,28 @@ fn force_ans<U: User, E: Engine<U>>(x: LTerm<U, E>) -> Goal<U, E> {
 
 #[cfg(feature = "clpfd")]
 fn enforce_constraints_fd<U: User, E: Engine<U>>(x: LTerm<U, E>) -> Goal<U, E> {
-    proto_vulcan!([
-        force_ans(x),
-        fngoal | engine,
-        state | {
+    proto_vulcan!(fngoal move |solver, state| {
+        if state.dstore_ref().is_empty() {
+            // There are no domains to label. Succeeding right away keeps the number of search
+            // steps spent here independent of the size of the answer term; otherwise answers
+            // with small terms overtake earlier answers with large terms in the interleaving
+            // conjunction of the query body and reification (visible as answers of a `dfs`
+            // query coming out of order).
             state.verify_all_bound();
-            let bound_x = state.dstore_ref().keys().cloned().collect::<LTerm<U, E>>();
-            proto_vulcan!( onceo { force_ans(bound_x) } ).solve(engine, state)
+            return Stream::unit(Box::new(state));
         }
-    ])
+        let x: LTerm<U, E> = x.clone();
+        let g: Goal<U, E> = proto_vulcan!([
+            force_ans(x),
+            fngoal | engine,
+            state | {
+                state.verify_all_bound();
+                let bound_x = state.dstore_ref().keys().cloned().collect::<LTerm<U, E>>();
+                proto_vulcan!( onceo { force_ans(bound_x) } ).solve(engine, state)
+            }
+        ]);
+        g.solve(solver, state)
+    })
 }
 
 #[cfg(not(feature = "clpfd"))]
